@@ -196,7 +196,7 @@ Example pg_example :
 Proof. cbn. split; [repeat constructor; cbn; intuition congruence|split; vm_compute; reflexivity]. Qed.
 
 (* ---------- syncJob on the world: the API server's pods after an admitted sync ---------- *)
-From V Require Import C06.SyncLemmas.
+From V Require Import C05.SyncLemmas.
 
 Lemma sync_job_pods : forall w u F w' e wr,
   sync_job w u F = (w', e, wr) -> pg_admitted (v_pg w) = true -> st_phase (v_st w) <> PhNone ->
